@@ -15,6 +15,7 @@ struct CaseOut {
     bool nontrivial = false;  // by the family's stated rule
     std::string sig, detail, input_hex, sample;
     uint64_t tags = 0;
+    uint64_t units = 1;       // elementary evaluations inside this case (points of a sweep, histories, targets)
     void fail(const std::string &s, const std::string &d) { if(!bad) { bad = true; sig = s; detail = d; } }
 };
 
@@ -29,7 +30,7 @@ struct Family {
 
 struct Violation { std::string kind, sig, detail, family, input_hex; uint64_t index = 0, count = 1; int signo = 0; };
 
-struct FamStats { std::string name, describe; uint64_t count = 0, evaluated = 0, skipped = 0, nontrivial = 0, bad = 0, deaths = 0; bool complete = true; double wall_s = 0; };
+struct FamStats { std::string name, describe; uint64_t units = 0, count = 0, evaluated = 0, skipped = 0, nontrivial = 0, bad = 0, deaths = 0; bool complete = true; double wall_s = 0; };
 
 struct Args {
     std::string tier = "quick", out, replay_case;
@@ -101,7 +102,7 @@ static inline int run_main(int argc, char **argv, const char *property, std::vec
             uint64_t nchunks = (F.count + (uint64_t)F.chunk - 1) / (uint64_t)F.chunk;
             Family *Fp = &F; double dl = deadline;
             pf::Result r = pf::run(nchunks, a.workers, tmp, "fam", [&, Fp, dl](pf::Ctx &ctx, uint64_t item, uint32_t sub_start) {
-                uint64_t ev = 0, sk = 0, nt = 0, bad = 0, aborted = 0; std::vector<uint64_t> tc(tag_names.size(), 0);
+                uint64_t ev = 0, sk = 0, nt = 0, bad = 0, aborted = 0, un = 0; std::vector<uint64_t> tc(tag_names.size(), 0);
                 uint64_t base = item * (uint64_t)Fp->chunk;
                 for(uint32_t s = sub_start; s < (uint32_t)Fp->chunk && base + s < Fp->count; s++) {
                     if((s & 63) == 0 && vu::now_s() > dl) { aborted = 1; break; }
@@ -110,19 +111,19 @@ static inline int run_main(int argc, char **argv, const char *property, std::vec
                     if(!o.skip && !o.bad && ctx.soft_errors) o.fail("sanitizer", ctx.soft_report);
                     ctx.end_sub();
                     if(o.skip) { sk++; continue; }
-                    ev++; if(o.nontrivial) nt++;
+                    ev++; un += o.units; if(o.nontrivial) nt++;
                     for(size_t t = 0; t < tc.size(); t++) if(o.tags & (1ull << t)) tc[t]++;
                     if(o.bad) { bad++; uint8_t t = E_VIOL; ctx.emit(&t, 1); uint64_t ix = base + s; ctx.emit(&ix, 8); ctx.emit_str(o.sig); ctx.emit_str(o.detail); ctx.emit_str(o.input_hex.substr(0, 4000)); }
                     if(!o.sample.empty() && (base + s) % (Fp->count / 3 + 1) == 0) { uint8_t t = E_SAMPLE; ctx.emit(&t, 1); ctx.emit_str(o.sample); }
                 }
-                uint8_t t = E_CHUNK; ctx.emit(&t, 1); ctx.emit(&ev, 8); ctx.emit(&sk, 8); ctx.emit(&nt, 8); ctx.emit(&bad, 8); ctx.emit(&aborted, 8);
+                uint8_t t = E_CHUNK; ctx.emit(&t, 1); ctx.emit(&ev, 8); ctx.emit(&sk, 8); ctx.emit(&nt, 8); ctx.emit(&bad, 8); ctx.emit(&aborted, 8); ctx.emit(&un, 8);
                 for(auto x : tc) ctx.emit(&x, 8);
             }, a.budget_scale);
             for(auto &f : r.files) {
                 pf::Reader rd; rd.load(f);
                 while(!rd.eof()) {
                     uint8_t t; if(!rd.get(&t, 1)) break;
-                    if(t == E_CHUNK) { uint64_t ev, sk, nt, bad, ab; rd.get(&ev, 8); rd.get(&sk, 8); rd.get(&nt, 8); rd.get(&bad, 8); rd.get(&ab, 8); fs.evaluated += ev; fs.skipped += sk; fs.nontrivial += nt; fs.bad += bad; if(ab) fs.complete = false;
+                    if(t == E_CHUNK) { uint64_t ev, sk, nt, bad, ab, un; rd.get(&ev, 8); rd.get(&sk, 8); rd.get(&nt, 8); rd.get(&bad, 8); rd.get(&ab, 8); rd.get(&un, 8); fs.units += un; fs.evaluated += ev; fs.skipped += sk; fs.nontrivial += nt; fs.bad += bad; if(ab) fs.complete = false;
                         for(size_t k = 0; k < tagc.size(); k++) { uint64_t x; rd.get(&x, 8); tagc[k] += x; } }
                     else if(t == E_VIOL) { Violation v; v.kind = "monitor"; v.family = F.name; rd.get(&v.index, 8); rd.get_str(v.sig); rd.get_str(v.detail); rd.get_str(v.input_hex); if(v.sig == "sanitizer") v.kind = "sanitizer"; add_v(v); }
                     else if(t == E_SAMPLE) { std::string s; rd.get_str(s); if(samples.size() < 12) samples.push_back(F.name + ": " + s); }
@@ -143,11 +144,11 @@ static inline int run_main(int argc, char **argv, const char *property, std::vec
         }
         vu::J j = vu::J::obj();
         j.set("property", property); j.set("engine", "enum"); j.set("tier", a.tier);
-        uint64_t ev = 0, nt = 0; for(auto &s : stats) { ev += s.evaluated; nt += s.nontrivial; }
-        j.set("evaluations", (long long)ev); j.set("distinct_nontrivial", (long long)nt); j.set("exhaustive", exhaustive);
+        uint64_t ev = 0, nt = 0, un = 0; for(auto &s : stats) { ev += s.evaluated; nt += s.nontrivial; un += s.units; }
+        j.set("evaluations", (long long)ev); j.set("elementary_evaluations", (long long)un); j.set("distinct_nontrivial", (long long)nt); j.set("exhaustive", exhaustive);
         j.set("nontrivial_rule", nontrivial_rule);
         vu::J fj = vu::J::arr();
-        for(auto &s : stats) { vu::J x = vu::J::obj(); x.set("family", s.name); x.set("enumerates", s.describe); x.set("size", (long long)s.count); x.set("evaluated", (long long)s.evaluated); x.set("duplicate_indices_skipped", (long long)s.skipped);
+        for(auto &s : stats) { vu::J x = vu::J::obj(); x.set("family", s.name); x.set("enumerates", s.describe); x.set("size", (long long)s.count); x.set("evaluated", (long long)s.evaluated); x.set("elementary_evaluations", (long long)s.units); x.set("duplicate_indices_skipped", (long long)s.skipped);
             x.set("nontrivial", (long long)s.nontrivial); x.set("violating", (long long)s.bad); x.set("complete", s.complete); x.set("wall_s", s.wall_s); fj.push(x); }
         j.set("families", fj);
         vu::J tj = vu::J::obj(); for(size_t t = 0; t < tag_names.size(); t++) tj.set(tag_names[t], (long long)tagc[t]); j.set("outcome_tags", tj);
